@@ -230,6 +230,8 @@ where
     }
 
     fn solve(&mut self, timeout: Duration) -> Result<Path<S>, PlanningError> {
+        #[cfg(feature = "verif")]
+        use crate::verif::SimInstant as Instant;
         let mut rng = self
             .rng
             .take()
